@@ -616,7 +616,10 @@ def owned_flags(ctx, world):
                     ctx.ob("A9.proto", inst, True, loc_of(mod, x))
                 else:
                     ctx.fail("A9.proto", inst, f"{fq}|owned-flag:{norm_text(v)[:40]}", loc_of(mod, x), f"`{norm_text(x)[:60]}` marks `{norm_text(v)[:40]}` as an owned buffer, but this function did not allocate it: the next contribution is added into that value in place", "a primitive whose (co)tangent contribution aliases one of its inputs (an identity-like linear primitive): the caller's array is overwritten")
-    ctx.floor("A9.proto hand-written flagged pairs", n, 1)
+    if n == 0:
+        # (how the user's cotangent enters the table is decided by A13.once; this clause only watches hand-written
+        # (value, True) pairs, of which a correct tree needs none - its positive example is a kept seeded change)
+        ctx.ob("A9.proto", "no hand-written flagged pair (value, True) outside add_outgrads", True, "autograd/core.py", nontrivial=False)
 
 
 # ----------------------------------------------------------------------------------------- purity of VSpace ops / in-place sites
